@@ -83,6 +83,7 @@ func cloneCase(c *Case) *Case {
 		d.Project = c.Project.Clone()
 	}
 	d.Faults = append([]Fault(nil), c.Faults...)
+	d.PriorJobs = append([]Job(nil), c.PriorJobs...)
 	d.History = append([]Step(nil), c.History...)
 	d.Reps = append([]Rep(nil), c.Reps...)
 	if c.Conc != nil {
